@@ -216,11 +216,11 @@ def cells():
         out.append(Cell('cgne[%dx%d,%s,k=%d]' % (m, n, kind, k), 'c13:cgne', dict(m=m, n=n, k=k, kind=kind), tier=tier, twin=((m, n, k) == (2, 1, 1)),
                         twin_timeout_s=600, bounds='A %dx%d (%s) symbolic, %d CG step(s)' % (m, n, kind, k), **big))
     for (m, n), iters, fail, tier in [((1, 1), 1, False, 'quick'), ((2, 1), 1, False, 'quick'), ((1, 1), 2, False, 'quick'), ((1, 1), 2, True, 'quick'),
-                                      ((2, 1), 2, True, 'thorough'), ((2, 1), 2, False, 'thorough')]:
+                                      ((2, 2), 1, False, 'quick'), ((2, 2), 2, True, 'thorough'), ((2, 1), 2, True, 'thorough'), ((2, 1), 2, False, 'thorough')]:
         out.append(Cell('rsp_column[%dx%d,iters=%d%s]' % (m, n, iters, ',micro-solver failure injected' if fail else ''), 'c13:rsp_column',
                         dict(m=m, n=n, iters=iters, fail_first=fail), tier=tier, twin=False,
                         bounds='A %dx%d real-axis symbolic, block size 1, all sketch draws symbolic' % (m, n), **big))
-    for (m, n), p, tier in [((1, 1), 2, 'quick'), ((2, 1), 2, 'quick'), ((2, 1), 3, 'quick'), ((2, 2), 2, 'thorough')]:
+    for (m, n), p, tier in [((2, 1), 2, 'quick'), ((2, 2), 2, 'quick'), ((3, 2), 3, 'thorough')]:
         out.append(Cell('hybrid[%dx%d,p=%d]' % (m, n, p), 'c13:hybrid', dict(m=m, n=n, p=p), tier=tier, twin=False,
                         bounds='A %dx%d real-axis symbolic, r = 1, T = 1, one cycle, all draws symbolic' % (m, n), **big))
     for (m, n), p, tier in [((1, 1), 2, 'quick'), ((2, 1), 2, 'quick'), ((2, 2), 2, 'thorough'), ((2, 1), 3, 'quick'), ((2, 1), 4, 'thorough')]:
